@@ -96,6 +96,27 @@ CHECKS = {
           "cover invariant (min over a coordinate's accumulators >= exact decayed sum, exact for dyadic decay), monotonicity for "
           "beta2=1, the per-coordinate step bound against diagonal AdaGrad/RMSProp and rank-1 equality are evaluated.",
           "Gradient values outside the dyadic alphabet; dims > 3.", "DESIGN.md §4 C12"),
+  "C13": ("explicit-state enumeration of the product device count x number of statistics x representation x all gradient "
+          "histories through jax.pmap on forced host devices and through the sharded optimizer under real meshes, differential oracle "
+          "against the one-device run",
+          "For D in {1..4} (quick) / {1..8} (thorough) forced host-platform devices x trees with N in {1,2,3,5,6,8} (1..10,12,14) "
+          "statistics (N mod D covers the residues, reported) x {full, int16-quantized, low-rank compressed, reuse+eigh} x every history "
+          "over {gA,gB} of length <= 2 (3), every device's update and state is compared with the one-device run (2e-6 of the leaf's "
+          "max-norm in float64-root runs, 2e-4 in float32-root runs, one bucket for quantized payloads; bit-identical leaves counted). "
+          "The sharded optimizer is run with declared device counts {1,2,3,5} (1..8) on a 1-device mesh and on meshes of 2 and 4 (and "
+          "8) devices and must give the same per-parameter statistics, preconditioners, local state and updates.",
+          "Forced CPU host devices stand in for accelerators (single host, CPU collectives); root diagnostics (noise-level errors, "
+          "their ratios, iteration counts) are only required to agree in structure, finiteness and to 1e-4 absolutely.",
+          "DESIGN.md §4 C13"),
+  "C14": ("explicit-state BFS over all gradient histories with a crash/restore transition at every reached state (serialize, fresh "
+          "optimizer object and trace, restore, continue), bitwise differential oracle",
+          "For 11 optimizers (distributed_shampoo full / eigh+schedule / pmap+quantized / compressed / frequent-directions / sharded / "
+          "LOBPCG, sm3, tearfree Shampoo / Sketchy / Adafactor-grafted) every state reached by a history over {gA,gB} of length <= 3 (5 "
+          "thorough) is serialized with flax msgpack, restored into the init template of a freshly constructed optimizer, and for every "
+          "gradient of the alphabet the update and next state from the restored state must be bit-identical to those from the original; "
+          "by induction over the BFS tree every continuation from every crash point equals the uninterrupted run. Thorough also performs "
+          "the restore-and-continue in a fresh process for crash points 0, 1 and T.",
+          "Same XLA build and host; histories beyond the depth bound.", "DESIGN.md §4 C14"),
   "C16": ("explicit-state BFS over all gradient sequences up to depth T through the real OCO init/update pair, lock-step with "
           "closed forms and an independent NumPy frequent-directions sketch",
           "For every (algorithm in OGD/ADA/S_ADA/ADA_FD/FD_SON/RFD_SON, dimension 2..4 (5), sketch size {2,3}, delta {0,0.5}, lr "
